@@ -170,3 +170,44 @@ CHECKS["C07"] = {
         J("nonces", AGENT, "TestC07NonceDistinct", {"shards": 1, "n": 20000}, {"shards": 4, "n": 1000000}, toolchain="go126", rapid=False),
     ],
 }
+
+CHECKS["C10"] = {
+    "level": "exploration",
+    "engine": "E3 agent in-package",
+    "level_text": "The harness owns the schedule at the agent's request interface: the dispatcher is parked deterministically, generated batches (1..40 requests of all kinds, biased to "
+                  "the update queue at 8..12 with logins of upgradeable users queued) are enqueued in a chosen order and occupancy, then released; upgrade modes off/local/remote "
+                  "(stub master ok/unreachable/stalled), with and without a hooks directory. 'Never wedges' is decided per schedule by virtual-time deadlock detection "
+                  "(every goroutine durably blocked and no timer within 2 h) - no wall-clock oracle.",
+    "level_note": "Trusted: testing/synctest's durably-blocked predicate and virtual clock (go1.26.8). Go's select among several ready queues is sampled (each schedule is run 6 times), not enumerated. "
+                  "Liveness is decided as 'no reachable quiescent state with unanswered requests' over the explored schedules.",
+    "technique": "schedule-generating property-based testing (rapid) with a harness-controlled scheduler under testing/synctest; oracle = virtual-time deadlock detection",
+    "oracle": "after the schedule and synctest.Wait(): every launched request has a response; otherwise advance 2 h of virtual time; still unanswered => wedge (with dispatcher stack); "
+              "afterwards one new request of every kind is answered",
+    "rule": "a case = one schedule run 6 times. Non-trivial = at a release point >= 2 request queues are non-empty and one of them is at capacity (10); "
+            "distinct = distinct (mode, bucketed occupancy vector)",
+    "assumptions": ["remote upgrade master is a stub RoundTripper (ok / error / blocks forever)"],
+    "required_classes": {"all": ["release-with->=2-queues-nonempty-and-one-full", "mode:local", "mode:remote-stalled", "mode:"]},
+    "jobs": [
+        J("nowedge", AGENT, "TestC10NoWedge", {"shards": 8, "checks": 40}, {"shards": 16, "checks": 1500}, toolchain="go126"),
+    ],
+}
+
+CHECKS["C11"] = {
+    "level": "exploration",
+    "engine": "E3 agent in-package",
+    "level_text": "Generated concurrent histories at the agent's request interface (batches of 1..7 pairwise-concurrent requests on overlapping users, enqueued while the dispatcher is parked, "
+                  "plus free-running batches), upgrades off and local with initially upgradeable users; every recorded history (call/return stamps, responses) is searched exhaustively "
+                  "for a linearization against the sequential store model; final sequential probes of every password ever used make the idle-state directory part of the history.",
+    "level_note": "Trusted: the sequential model (applyOp in harness/agent/sched_test.go), the exhaustive per-batch search, synctest. select's choice among ready queues is sampled by repetition. "
+                  "Each violating history is a proof; absence of one is not.",
+    "technique": "concurrent-history generation (rapid + harness scheduler under synctest) with a linearizability search (Wing-Gong style DFS with memoisation) against a sequential model",
+    "oracle": "exists an order consistent with real time in which every response equals the sequential model's; internal upgrades are invisible in the model, so an old password "
+              "working again after an acknowledged change has no linearization",
+    "rule": "a case = one generated history run 6 times. Non-trivial = a batch containing a successful login of an upgradeable user concurrent with an update/remove/add/set-admin of the same user; "
+            "distinct = distinct (mode, kinds of the concurrent mutations, batch size)",
+    "assumptions": ["requests at the Store interface; HTTP/SASL frontends add no shared state beyond it"],
+    "required_classes": {"all": ["batch:login-of-upgradeable-user-concurrent-with-mutation", "mode:local", "mode:"]},
+    "jobs": [
+        J("linearizable", AGENT, "TestC11Linearizable", {"shards": 8, "checks": 40}, {"shards": 16, "checks": 1500}, toolchain="go126"),
+    ],
+}
